@@ -82,6 +82,16 @@ Proof. exact ConstsTie.surrogates_from_source. Qed.
 Theorem C01_surrogate_pair_from_source :
   src_surrogate_combine = map (fun p => (fst p, snd p, ct_pair_char (fst p) (snd p))) pair_domain.
 Proof. exact ConstsTie.surrogate_pair_from_source. Qed.
+(* the number automaton of number.rs: for every context, state and character of char_domain the outcome of the
+   arm the source selects (next state / leave the loop / error) is the one Parser.num_trans yields; the initial state
+   and the accepting states of the final `matches!` are NInit and Parser.num_final; beyond char_domain every
+   character is an error in the model, and the naming of states loses nothing *)
+Theorem C01_number_automaton_from_source :
+  src_number_automaton = ct_number_automaton
+  /\ (forall ctx s c, 256 <= c -> num_trans ctx s c = NBad)
+  /\ (forall s, In s ct_nstates)
+  /\ (forall a b, ct_nstate_name a = ct_nstate_name b -> a = b).
+Proof. exact ConstsTie.number_automaton_from_source. Qed.
 
 Print Assumptions C01_str.
 Print Assumptions C01_slice.
@@ -98,3 +108,4 @@ Print Assumptions C01_follows_from_source.
 Print Assumptions C01_control_from_source.
 Print Assumptions C01_surrogates_from_source.
 Print Assumptions C01_surrogate_pair_from_source.
+Print Assumptions C01_number_automaton_from_source.
